@@ -69,18 +69,18 @@ Definition put_ent (e : eng) (t ttl : N) (x : rec) (s : tst) : tst :=
   | EBadger => mkTS (others ++ [mkT x t (if ttl =? 0 then 0 else t + ttl)]) (ts_timers s)
   end.
 
-(* memkv: every timer that has fired removes whatever is stored in its slot; Badger: expired entries are invisible *)
+(* memkv: every timer that has fired removes the record it was armed for if that record is still stored (the slot
+   is left alone when it holds a later write); Badger: expired entries are invisible *)
 Definition advance (e : eng) (now : N) (s : tst) : tst :=
   match e with
   | EMem =>
       let fired := filter (fun p => fst p <=? now) (ts_timers s) in
-      mkTS (filter (fun y => negb (existsb (fun p => same_slot (snd p) (t_rec y)) fired)) (ts_store s))
+      mkTS (filter (fun y => negb (existsb (fun p => rec_eqb (snd p) (t_rec y)) fired)) (ts_store s))
            (filter (fun p => negb (fst p <=? now)) (ts_timers s))
   | EBadger => mkTS (filter (fun y => (t_exp y =? 0) || (now <? t_exp y)) (ts_store s)) (ts_timers s)
   end.
 
-(* memkv removes at the timer, so a record written after the timer fired survives: timers are applied in
-   time order together with the writes — the driver keeps dumps and writes apart from firing times *)
+(* timers are applied in time order together with the writes - the driver keeps dumps apart from firing times *)
 Fixpoint ttl_run (e : eng) (prefix : bytes) (ttl_ms : N) (s : tst) (evs : list tev) : option store :=
   match evs with
   | [] => Some (sort_by rec_ltb (map t_rec (ts_store s)))
@@ -240,7 +240,7 @@ Fixpoint ttl_oracle (e : eng) (prefix : bytes) (ttl_ms : N) (seen : list tev) (e
                     else worse acc
                       (if negb (is_event_key prefix (rkey x)) then Some 0
                        else if ttl_ms <=? t - tw then None
-                       else match e with EMem => Some 2 | EBadger => Some 0 end)) lw None in
+                       else Some 0)) lw None in
       worse here (ttl_oracle e prefix ttl_ms (TDump t obs :: seen) r)
   | ev :: r => ttl_oracle e prefix ttl_ms (ev :: seen) r
   end.
@@ -261,8 +261,5 @@ Definition c17_oracle (c : c17_case) : option N :=
       (* whatever expired: a key that reads absent can be created again, one that reads present cannot *)
       let fin_ok := forallb (fun p => let '(_, got, res) := p in
                                       match got with None => wres_eqb res WOk | Some _ => wres_eqb res WFalse end) fin in
-      match ttl_oracle e prefix ttl_ms [] evs with
-      | Some 2 => Some 2         (* memkv's timer removed a young index (finding C17-F2): what follows is its consequence *)
-      | o => worse o (ok_if fin_ok)
-      end
+      worse (ttl_oracle e prefix ttl_ms [] evs) (ok_if fin_ok)
   end.
